@@ -1,1 +1,211 @@
-import PQ.Model.Writer
+import PQ.Lemmas.Writer
+/-!
+# C06 — every Add/Write/Close history gives one row group per non-empty batch
+
+All statements are about the executable writer model `PQ/Model/Writer.lean` (which the harness
+compares byte-for-byte with the Go writer).  Specification vocabulary (defined in
+`PQ/Lemmas/Writer.lean`):
+
+* `batches ops`     – the records between consecutive `Write`s, empty batches dropped, records after
+                      the last `Write` dropped;  `pendingOf ops` – the records after the last `Write`;
+* `chunksOf max rs` – `rs` cut by `take max` / `drop max`;  `pageOf n chunk` – the page holding `chunk`;
+* `chainOf max n pend` – `[emptyPage n]` if nothing is pending, else `(chunksOf max pend).map (pageOf n)`;
+* `batchRG cols max codec b` / `batchOut cols max codec b` – the row group / the sink writes of batch `b`;
+* `s.exec ops` – the state after the calls `ops`;  `s.outs ops` – the sink writes of each call.
+
+Hypotheses: `1 ≤ max` everywhere the chain is involved (for `max = 0` Go's `Add` recurses forever),
+`cols ≠ []` where row groups are counted (with no columns a `Write` touches no page and therefore
+records no `NumRows`).
+-/
+namespace PQ.C06
+open PQ PQ.Thrift
+
+/-! ## 3. A `Write` with nothing pending is inert -/
+
+/-- `Write()` when the head page is empty returns at once: same state, no sink write; hence the run
+with that call has one more entry `some []`, and the byte stream is unchanged. -/
+theorem empty_write_inert (s : WState) (h : (s.pages.head?.map (·.len)).getD 0 = 0) :
+    s.write = (s, []) ∧
+    (∀ ops, runOps s (Op.write :: ops) = some [] :: runOps s ops) ∧
+    (∀ ops, fileBytes (runOps s (Op.write :: ops)) = fileBytes (runOps s ops)) := by
+  have hw : s.write = (s, []) := write_empty s h
+  have hr : ∀ ops, runOps s (Op.write :: ops) = some [] :: runOps s ops := by
+    intro ops
+    simp [runOps, WState.step, hw]
+  refine ⟨hw, hr, ?_⟩
+  intro ops
+  rw [hr]
+  simp [fileBytes]
+
+/-- Whole-history form: a `Write` issued when no record is pending (`pendingOf pre = []`) can be
+deleted from the history without changing a single byte of the file, whatever follows. -/
+theorem empty_write_inert_file {max : Nat} (hmax : 1 ≤ max) (cols : List Col) (hcols : cols ≠ [])
+    (codec : Codec) (pre post : List Op) (hpre : ∀ op ∈ pre, op.isClose = false)
+    (hpend : pendingOf pre = []) :
+    fileBytes (runWriter cols max codec (pre ++ Op.write :: post)) =
+      fileBytes (runWriter cols max codec (pre ++ post)) := by
+  unfold runWriter
+  rw [runOps_append _ pre _ hpre, runOps_append _ pre _ hpre]
+  have hs : ((WState.init cols max codec).exec pre).headLen = 0 := by
+    rw [init_eq_stateOf, exec_stateOf hmax cols hcols, stateOf_headLen hmax]
+    exact hpend
+  have := (empty_write_inert _ hs).2.2 post
+  simp only [fileBytes, List.flatMap_cons, List.flatMap_append] at this ⊢
+  rw [this]
+
+/-- … and the row groups (hence the footer) are the same as well. -/
+theorem empty_write_inert_batches (pre post : List Op) (hpend : pendingOf pre = []) :
+    batches (pre ++ Op.write :: post) = batches (pre ++ post) := by
+  have key : ∀ (pre : List Op) (pend : List Rec), pendingAux pend pre = [] →
+      batchesAux pend (pre ++ Op.write :: post) = batchesAux pend (pre ++ post) := by
+    intro pre
+    induction pre with
+    | nil => intro pend h; simp only [pendingAux] at h; subst h; simp [batchesAux]
+    | cons op pre ih =>
+      intro pend h
+      cases op with
+      | add r => exact ih _ h
+      | close => exact ih _ h
+      | write =>
+        simp only [List.cons_append, batchesAux]
+        rw [ih [] h]
+  exact key pre [] hpend
+
+/-! ## 1. `Add` builds exactly `chunksOf max pending` -/
+
+/-- After adding the records `rs ≠ []` one by one to a fresh chain, the chain is `rs` cut into
+consecutive chunks of `max` records, one page per chunk. -/
+theorem chain_is_chunks {max : Nat} (hmax : 1 ≤ max) (n : Nat) (rs : List Rec) (hrs : rs ≠ []) :
+    rs.foldl (addToChain max n) [emptyPage n] = (chunksOf max rs).map (pageOf n) := by
+  rw [chain_add_all hmax]
+  unfold chainOf
+  rw [if_neg (by simpa using hrs)]
+
+/-- The shape of the chain: page lengths are the chunk lengths, the chunks concatenate to `rs`,
+every page holds between `1` and `max` records, every page but the last is full. -/
+theorem chain_shape {max : Nat} (hmax : 1 ≤ max) (n : Nat) (rs : List Rec) (hrs : rs ≠ []) :
+    let pages := rs.foldl (addToChain max n) [emptyPage n]
+    pages.map (·.len) = (chunksOf max rs).map List.length ∧
+    (chunksOf max rs).flatten = rs ∧
+    (pages.map (·.len)).sum = rs.length ∧
+    pages ≠ [] ∧
+    (∀ p ∈ pages, 1 ≤ p.len ∧ p.len ≤ max) ∧
+    (∀ p ∈ pages.dropLast, p.len = max) := by
+  intro pages
+  have hp : pages = (chunksOf max rs).map (pageOf n) := chain_is_chunks hmax n rs hrs
+  have hnf := chunksOf_NF hmax rs hrs
+  have hlen : ((fun x : Page => x.len) ∘ pageOf n) = List.length := by
+    funext c; simp [pageOf_len]
+  refine ⟨?_, chunksOf_flatten hmax rs, ?_, ?_, ?_, ?_⟩
+  · rw [hp, List.map_map, hlen]
+  · rw [hp, List.map_map, hlen, ← List.length_flatten, chunksOf_flatten hmax]
+  · rw [hp]; simpa using NF_ne_nil _ hnf
+  · intro p hpp
+    rw [hp] at hpp
+    obtain ⟨c, hc, rfl⟩ := List.mem_map.mp hpp
+    rw [pageOf_len]
+    cases NF_bounds _ hnf with
+    | inl h => exact h c hc
+    | inr h => omega
+  · intro p hpp
+    rw [hp, ← List.map_dropLast] at hpp
+    obtain ⟨c, hc, rfl⟩ := List.mem_map.mp hpp
+    rw [pageOf_len]
+    exact NF_dropLast_full _ hnf c hc
+
+/-- Column contents: for well-formed records (one entry list per column) the pages of column `i`,
+concatenated along the chain, are the records' entries for column `i`, in order. -/
+theorem chain_columns {max : Nat} (hmax : 1 ≤ max) (n i : Nat) (hi : i < n) (rs : List Rec)
+    (hwf : ∀ r ∈ rs, r.length = n) :
+    (rs.foldl (addToChain max n) [emptyPage n]).flatMap (·.cols.getD i []) = rs.flatMap (·.getD i []) := by
+  cases rs with
+  | nil => simp [emptyPage, List.getD_eq_getElem?_getD, hi]
+  | cons r rs =>
+    rw [chain_is_chunks hmax n _ (by simp), List.flatMap_map]
+    have hmem : ∀ c ∈ chunksOf max (r :: rs), ∀ x ∈ c, x.length = n := by
+      intro c hc x hx
+      apply hwf
+      rw [← chunksOf_flatten hmax (r :: rs)]
+      exact List.mem_flatten.mpr ⟨c, hc, hx⟩
+    have : ∀ cs : List (List Rec), (∀ c ∈ cs, ∀ x ∈ c, x.length = n) →
+        cs.flatMap (fun c => (pageOf n c).cols.getD i []) = cs.flatten.flatMap (·.getD i []) := by
+      intro cs
+      induction cs with
+      | nil => intro _; rfl
+      | cons c cs ih =>
+        intro h
+        rw [List.flatMap_cons, List.flatten_cons, List.flatMap_append,
+          pageOf_col n i hi c (h c List.mem_cons_self), ih (fun c' hc' => h c' (List.mem_cons_of_mem _ hc'))]
+    rw [this _ hmem, chunksOf_flatten hmax]
+
+/-! ## 2. Row groups refine batches -/
+
+/-- The state reached by any history is completely determined by `pendingOf ops` and `batches ops`. -/
+theorem state_is_stateOf {max : Nat} (hmax : 1 ≤ max) (cols : List Col) (hcols : cols ≠ [])
+    (codec : Codec) (ops : List Op) :
+    (WState.init cols max codec).exec ops =
+      stateOf cols max codec (pendingOf ops) (batches ops) (addCount ops) := by
+  rw [init_eq_stateOf, exec_stateOf hmax cols hcols]
+  simp [pendingOf, batches]
+
+theorem footerT_eq (s : WState) :
+    footerT s = (schemaElems s.cols).map fun se =>
+      TVal.struct [(1, .int 5 1), (2, .list 12 (se.map SElem.toT)),
+                   (3, .int 6 (((s.rgs.filter (·.numRows ≠ 0)).map (·.numRows)).sum : Nat)),
+                   (4, .list 12 (rowGroupsT s.cols s.codec.id s.rgs 4))] := by
+  unfold footerT
+  rw [sum_map_cast]
+  cases schemaElems s.cols <;> rfl
+
+/-- One row group per non-empty batch, in order; the open row group is always untouched; the
+pending count is the chain's total; the footer's `num_rows` is the number of records in batches. -/
+theorem rowgroups_refine_batches {max : Nat} (hmax : 1 ≤ max) (cols : List Col) (hcols : cols ≠ [])
+    (codec : Codec) (ops : List Op) :
+    let s := (WState.init cols max codec).exec ops
+    -- the closed row groups are exactly the row groups of the batches, in order
+    s.rgs.dropLast = (batches ops).map (batchRG cols max codec) ∧
+    (s.rgs.dropLast.filter (·.numRows ≠ 0)).map (·.numRows) = (batches ops).map List.length ∧
+    s.rgs.dropLast.map (·.numRows) = (batches ops).map List.length ∧
+    -- no closed row group is empty, no batch is empty
+    (∀ rg ∈ s.rgs.dropLast, rg.numRows ≠ 0) ∧ (∀ b ∈ batches ops, b ≠ []) ∧
+    -- the open row group has no rows and no chunks
+    s.rgs.getLast? = some (emptyRG cols.length) ∧
+    -- pending records
+    s.pages = chainOf max cols.length (pendingOf ops) ∧
+    s.rowGroupDocs = (pendingOf ops).length ∧
+    (s.pages.map (·.len)).sum = (pendingOf ops).length ∧
+    s.docs = addCount ops ∧
+    -- the footer: num_rows (field 3) counts exactly the rows of the batches
+    footerT s = (schemaElems cols).map fun se =>
+      TVal.struct [(1, .int 5 1), (2, .list 12 (se.map SElem.toT)),
+                   (3, .int 6 (((batches ops).map List.length).sum : Nat)),
+                   (4, .list 12 (rowGroupsT cols codec.id s.rgs 4))] := by
+  intro s
+  have hs : s = stateOf cols max codec (pendingOf ops) (batches ops) (addCount ops) :=
+    state_is_stateOf hmax cols hcols codec ops
+  have hne : ∀ b ∈ batches ops, b ≠ [] := batchesAux_ne_nil ops []
+  have hdl : s.rgs.dropLast = (batches ops).map (batchRG cols max codec) := by
+    rw [hs]; simp [stateOf]
+  have hrows : s.rgs.dropLast.map (·.numRows) = (batches ops).map List.length := by
+    rw [hdl, List.map_map]; rfl
+  have hfil : s.rgs.filter (·.numRows ≠ 0) = (batches ops).map (batchRG cols max codec) := by
+    rw [hs]
+    simp only [stateOf, List.filter_append, filter_done_rgs cols max codec _ hne]
+    simp [emptyRG]
+  refine ⟨hdl, ?_, hrows, ?_, hne, ?_, ?_, ?_, ?_, ?_, ?_⟩
+  · rw [hdl, filter_done_rgs cols max codec _ hne, List.map_map]; rfl
+  · intro rg hrg
+    rw [hdl] at hrg
+    obtain ⟨b, hb, rfl⟩ := List.mem_map.mp hrg
+    have := hne b hb
+    simpa [batchRG_numRows] using this
+  · rw [hs]; simp [stateOf]
+  · rw [hs]; rfl
+  · rw [hs]; rfl
+  · rw [hs]; exact chainOf_lens_sum hmax _ _
+  · rw [hs]; rfl
+  · rw [footerT_eq, hfil, List.map_map]
+    rw [hs]
+    rfl
+
+end PQ.C06
